@@ -8,6 +8,7 @@ import (
 	"crypto/tls"
 	"crypto/x509"
 	"crypto/x509/pkix"
+	"errors"
 	"fmt"
 	"io"
 	"math/big"
@@ -21,6 +22,7 @@ import (
 	"mellium.im/xmpp"
 	"mellium.im/xmpp/component"
 	"mellium.im/xmpp/jid"
+	"mellium.im/xmpp/stream"
 	"mellium.im/xmpp/websocket"
 )
 
@@ -45,13 +47,14 @@ var DumpStacks = os.Getenv("C04_STACKS") != ""
 
 // Obs is what one run of the implementation showed.
 type Obs struct {
-	HasErr   bool   `json:"has_err"`
-	Err      string `json:"err,omitempty"`
-	NilSess  bool   `json:"nil_session,omitempty"`
-	State    uint8  `json:"state"`
-	Panic    string `json:"panic,omitempty"`
-	TimedOut bool   `json:"timed_out,omitempty"`
-	Stuck    bool   `json:"stuck,omitempty"` // did not return even after the connection was shut down
+	HasErr    bool   `json:"has_err"`
+	Err       string `json:"err,omitempty"`
+	NilSess   bool   `json:"nil_session,omitempty"`
+	State     uint8  `json:"state"`
+	Panic     string `json:"panic,omitempty"`
+	TimedOut  bool   `json:"timed_out,omitempty"`
+	StreamErr bool   `json:"stream_err,omitempty"` // errors.As finds a stream.Error in the returned error
+	Stuck     bool   `json:"stuck,omitempty"`      // did not return even after the connection was shut down
 
 	Trace  []Ev     `json:"trace"`
 	Calls  []SVal   `json:"calls"`
@@ -441,6 +444,8 @@ func Run(sc *Scenario, f Fault, mat *TLSMaterial) Obs {
 		obs.HasErr = r.err != nil
 		if r.err != nil {
 			obs.Err = r.err.Error()
+			var se stream.Error
+			obs.StreamErr = errors.As(r.err, &se)
 		}
 		if r.s != nil {
 			obs.State = uint8(r.s.State())
